@@ -28,12 +28,12 @@ def cases(tier, seed):
     th = tier == "thorough"
     rng = random.Random(seed * 67867967 + 14)
     out = []
-    nmax, smax = (64, 12) if th else (26, 7)
+    nmax, smax = (64, 12) if th else (36, 8)
     for n in range(2, nmax + 1):
         for s in range(1, smax + 1):
             for tr in ("maximum", "revolve"):
                 out.append({"n": n, "s": s, "traj": tr})
-    for _ in range(600 if th else 25):
+    for _ in range(600 if th else 40):
         n = int(3 + rng.random() ** 2 * ((3000 if th else 400) - 3))
         out.append({"n": n, "s": rng.choice([2, 3, 4, 5, 8, 12, 20]),
                     "traj": rng.choice(["maximum", "revolve"]),
